@@ -538,6 +538,11 @@ func (ms *Modules) Process() []error {
 	dvP := map[string]bool{} // cache the modules we've handled since we have both modname and modname@revision-date
 	for _, devmods := range []map[string]*Module{ms.Modules, ms.SubModules} {
 		for _, m := range inKeyOrder(devmods) {
+			if m.BelongsTo != nil && !included[m] && includedName[m.Name] {
+				// Another revision of this submodule is the included
+				// one; this revision's deviations are not in force.
+				continue
+			}
 			e := ToEntry(m)
 			if !dvP[e.Name] {
 				errs = append(errs, e.ApplyDeviate(ms.ParseOptions.DeviateOptions)...)
